@@ -197,6 +197,9 @@ func (ld *Loaded) findIfaceMethod(key string) *types.Func {
 
 // findFunc resolves "(*T).Name", "(T).Name" or "Name" in a package.
 func (ld *Loaded) findFunc(pkgPath, key string) *ssa.Function {
+	if i := strings.Index(key, "/"); i >= 0 {
+		key = key[:i] // contract variant, e.g. "(*T).f/rg"
+	}
 	sp := ld.spkgs[pkgPath]
 	if sp == nil {
 		return nil
